@@ -8,6 +8,7 @@ import (
 	"go/constant"
 	"go/token"
 	"go/types"
+	"golang.org/x/tools/go/types/typeutil"
 	"os"
 	"sort"
 	"strings"
@@ -839,7 +840,34 @@ func c02NewerOf(p *Prog, r *Report) {
 				}
 			}
 		}
-		_ = info
+		if !usesLatest {
+			// the per-key merge sits in a helper (an index type, say)
+			usesLatest = len(p.FlatInl(fi).CallNodes(kFileLatestM)) > 0
+		}
+		if !dropsZero {
+			// the library form: slices.DeleteFunc(list, func(f) bool { return f.Seq.Zero() }) as the result
+			ast.Inspect(fi.Decl.Body, func(x ast.Node) bool {
+				c, ok := x.(*ast.CallExpr)
+				if !ok || len(c.Args) != 2 {
+					return true
+				}
+				if fn, _ := typeutil.Callee(info, c).(*types.Func); fn == nil || fn.Pkg() == nil || fn.Pkg().Path() != "slices" || fn.Name() != "DeleteFunc" {
+					return true
+				}
+				lit, ok := ast.Unparen(c.Args[1]).(*ast.FuncLit)
+				if !ok || len(lit.Body.List) != 1 {
+					return true
+				}
+				rs, ok := lit.Body.List[0].(*ast.ReturnStmt)
+				if !ok || len(rs.Results) != 1 {
+					return true
+				}
+				if lbl, isZ := zeroTest(p, fi, &GNode{Ast: rs.Results[0], IsCond: true}); isZ && lbl == 1 {
+					dropsZero = true
+				}
+				return true
+			})
+		}
 		r.Check(usesLatest && dropsZero, "C02.c", kMergeFiles, p.pos(fi.Decl), "Latest per key, zero-Seq entries dropped", "mergeFiles does not merge per key with Latest or lists entries without a version")
 	}
 }
